@@ -174,10 +174,12 @@ func runC14(r *ev.Run) {
 		chain.GenesisOptions{EpochInterval: 2, MaxValidators: 3, NoRewards: true, NodeExpiration: 12, Escrow: []uint64{1500, 299, 3000}}, // entity 1 below its claims at genesis
 	)
 	// tiny stakes around the voting-power unit (16 base units per vote), thresholds zero
-	tiny := chain.GenesisOptions{EpochInterval: 2, MaxValidators: 3, NoRewards: true, NodeExpiration: 12, ZeroThresholds: true, Escrow: []uint64{7, 40, 1000}}
-	variants = append(variants, tiny)
+	// (entity 0 additionally holds a 500-unit delegation of account 0, so the tiny stakes go to entities 1 and 2)
+	tiny := chain.GenesisOptions{EpochInterval: 2, MaxValidators: 3, NoRewards: true, NodeExpiration: 12, ZeroThresholds: true, Escrow: []uint64{1000, 7, 40}}
+	tiny2 := chain.GenesisOptions{EpochInterval: 2, MaxValidators: 3, NoRewards: true, NodeExpiration: 12, ZeroThresholds: true, Escrow: []uint64{1000, 15, 16}}
+	variants = append(variants, tiny, tiny2)
 	if !r.Thorough() {
-		variants = []chain.GenesisOptions{variants[2], variants[3], variants[5], variants[6], variants[7], tiny}
+		variants = []chain.GenesisOptions{variants[2], variants[3], variants[5], variants[6], variants[7], tiny, tiny2}
 	}
 	depth := 2
 	if r.Thorough() {
